@@ -60,13 +60,16 @@ class MolecularContainer:
 
     def top_up_conformations(self) -> None:
         """Makes sure that all atoms are present in all conformations."""
-        ref_atoms = {
-            atom.residue_label: atom
-            for name in reversed(self.conformation_names)
+        # all atoms are candidates (earlier conformations first): keeping only
+        # one atom per label would hide a compatible atom behind one that
+        # belongs to another residue type (alt-loc or model mutant)
+        ref_atoms = [
+            atom
+            for name in self.conformation_names
             for atom in self.conformations[name].atoms
-        }
+        ]
         for conf in self.conformations.values():
-            conf.top_up_from_atoms(ref_atoms.values())
+            conf.top_up_from_atoms(ref_atoms)
 
     def find_covalently_coupled_groups(self) -> None:
         """Find covalently coupled groups."""
